@@ -129,6 +129,15 @@ impl<E> CQueue<E> {
         }
     }
 
+    /// Creates a new parameteriszed `CQueue`, whose clock starts at `start`
+    /// instead of `Duration::ZERO`. Events earlier than `start` are rejected.
+    #[must_use]
+    pub fn new_at(n: usize, t: Duration, start: Duration) -> Self {
+        let mut this = Self::new(n, t);
+        this.t_current = start;
+        this
+    }
+
     ///
     /// Adds an event to the calenderqueue.
     ///
